@@ -38,6 +38,9 @@ func cloneGraph(g [][]int) [][]int {
 	return r
 }
 
+// c26DeepCyclic tells c26Graph that the deep graph it is given was generated with a cycle.
+var c26DeepCyclic bool
+
 func c26Graph(c *fw.Ctx, g [][]int, deep bool) {
 	n := len(g)
 	desc := func() string { return fmt.Sprint(g) }
@@ -179,7 +182,7 @@ func c26Graph(c *fw.Ctx, g [][]int, deep bool) {
 	{
 		cyclic := false
 		if deep {
-			cyclic = false // deep graphs are generated as DAG chains
+			cyclic = c26DeepCyclic // deep graphs are generated as DAG chains, or as one big cycle
 		} else {
 			for i := 0; i < n; i++ {
 				if reach[i][i] {
@@ -322,7 +325,7 @@ func randGraph(r *rand.Rand) [][]int {
 func init() {
 	fw.Register(&fw.Check{
 		ID:          "C26",
-		Rule:        "cases 0..15: all 65536 directed graphs on 4 vertices (self-loops included) in 16 slices, plus all graphs on 0..3 vertices in case 0; further cases: batches of random graphs (2-40 vertices, densities 0.02-0.5, DAGs in both orientations with multi-edges, general digraphs) and long chains/trees of depth up to 10^4; every graph is judged against naive reachability (SCC partition, reverse-topological callback order, closure cells, transposed edge multiset, longest path by DP). A graph is non-trivial when it has at least one edge; distinctness by adjacency text",
+		Rule:        "cases 0..15: all 65536 directed graphs on 4 vertices (self-loops included) in 16 slices, plus all graphs on 0..3 vertices in case 0; further cases: batches of random graphs (2-40 vertices, densities 0.02-0.5, DAGs in both orientations with multi-edges, general digraphs) and long chains of 2*10^3 to 3*10^4 vertices (numbered along the path, against it, or randomly; some closed into one cycle); every graph is judged against naive reachability (SCC partition, reverse-topological callback order, closure cells, transposed edge multiset, longest path by DP). A graph is non-trivial when it has at least one edge; distinctness by adjacency text",
 		Assumptions: []string{"naive DFS reachability and DP longest path are correct"},
 		Cases: func(tier string) int {
 			if tier == "thorough" {
@@ -363,23 +366,50 @@ func init() {
 				c.Distinct(fmt.Sprint(g))
 				c.Count("random_graphs", 1)
 			}
-			// deep chain / comb: recursion depth
-			n := 2000 + c.R.Intn(8000)
-			g := make([][]int, n)
-			perm := c.R.Perm(n)
-			for i := 0; i < n; i++ {
-				g[perm[i]] = []int{}
-				if i+1 < n {
-					g[perm[i]] = append(g[perm[i]], perm[i+1])
-					if c.R.Intn(10) == 0 && i+2 < n {
-						g[perm[i]] = append(g[perm[i]], perm[i+2+c.R.Intn(n-i-2)])
+			// deep chain / comb: recursion depth. Sizes go beyond 10^4 and every third chain is numbered
+			// along the path, so that one depth-first descent runs through the whole chain.
+			for rep := 0; rep < 2; rep++ {
+				n := 2000 + c.R.Intn(8000)
+				if rep == 1 {
+					n = 9990 + c.R.Intn(20000)
+				}
+				g := make([][]int, n)
+				perm := c.R.Perm(n)
+				switch c.R.Intn(3) {
+				case 0:
+					for i := range perm {
+						perm[i] = i
+					}
+				case 1:
+					for i := range perm {
+						perm[i] = n - 1 - i
 					}
 				}
+				for i := 0; i < n; i++ {
+					g[perm[i]] = []int{}
+					if i+1 < n {
+						g[perm[i]] = append(g[perm[i]], perm[i+1])
+						if c.R.Intn(10) == 0 && i+2 < n {
+							g[perm[i]] = append(g[perm[i]], perm[i+2+c.R.Intn(n-i-2)])
+						}
+					}
+				}
+				c26DeepCyclic = false
+				if rep == 1 && c.R.Intn(3) == 0 {
+					// close the chain: one cycle through all vertices
+					g[perm[n-1]] = append(g[perm[n-1]], perm[0])
+					c26DeepCyclic = true
+					c.Count("deep_cycles", 1)
+				}
+				c26Graph(c, g, true)
+				c26DeepCyclic = false
+				if n > 10000 {
+					c.Count("deep_chain_graphs_over_10000", 1)
+				}
 			}
-			c26Graph(c, g, true)
 			c.Count("deep_chain_graphs", 1)
 		},
 		MinNontrivial:    func(string) int { return 60000 },
-		RequiredCounters: []string{"graphs_with_nontrivial_sccs", "cyclic_graphs", "dags", "closure_cells_compared", "deep_chain_graphs"},
+		RequiredCounters: []string{"graphs_with_nontrivial_sccs", "cyclic_graphs", "dags", "closure_cells_compared", "deep_chain_graphs", "deep_chain_graphs_over_10000"},
 	})
 }
